@@ -321,6 +321,18 @@ func TestVerifC15Race(t *testing.T) {
 	const check = "C15.race"
 	res := verifrt.NewResult(check)
 	res.Rule = "free-running: G goroutines x R rounds Inc one StackCounter from K distinct call programs under the race detector; oracle: exactly K counters, each value = number of Incs from that program; any race report involving the package is a violation (counted by the driver). distinct = (G,K,round) configurations"
+	if os.Getenv("VERIF_SELFTEST_RACE") != "" {
+		// self-test of the monitor: a deliberate data race in the package under
+		// test's address space must be reported by the driver
+		var x int
+		var wg sync.WaitGroup
+		for g := 0; g < 2; g++ {
+			wg.Add(1)
+			go func() { defer wg.Done(); x++ }()
+		}
+		wg.Wait()
+		_ = x
+	}
 	rounds := verifrt.Scale(40, 400)
 	for i := 0; i < rounds; i++ {
 		rnd := verifrt.NewRand(verifrt.Seed(), fmt.Sprintf("%s/%d", check, i))
